@@ -422,7 +422,7 @@ func c07SysRun(e *vh.Env, c c07Sys, o *vh.Out, prop string) {
 		case 'f':
 			sc = vh.Script{Status: 500, Steps: []vh.Step{{Op: "write", N: 5}}}
 		case 'u':
-			sc = vh.Script{Status: 503}
+			sc = vh.Script{Status: 503, Interim: []vh.Interim{{Code: 103, Headers: [][2]string{{"Link", "</x>"}}}}} // a failure announced after an informational response
 		case 'x':
 			sc = vh.Script{Status: 200, Framing: "cl", Declared: 5000, Steps: []vh.Step{{Op: "write", N: 100}, {Op: "flush"}, {Op: "closeconn"}}}
 		case 'r':
